@@ -42,7 +42,7 @@ def make_sed(aps, rows, unit):
     return s
 
 
-def call(api, aps, rows, unit, req2, req_unit):
+def call(api, aps, rows, unit, req2, req_unit, subset=None):
     """returns ('refused', exc) or ('ok', out[row][k], meta_ok)"""
     from astropy import units as u
     req = np.array(req2, dtype=float) / 2.0
@@ -71,10 +71,13 @@ def call(api, aps, rows, unit, req2, req_unit):
         o = np.asarray(getattr(o, 'value', o), dtype=float)
         return ('ok', [[float(x) for x in r] for r in o], o.shape == (len(rows), len(req2)), None)
     if api == 'var':
-        # one filter per SED wavelength: request k applies to row k
+        # filters sit on SED wavelengths: request k applies to row k.  `subset` (a permutation of a subset of the
+        # rows, >= 2 of them) says which SED wavelengths carry a filter and in which order the filters are listed;
+        # rows without a filter are only interpolated in between and are not compared.
         wavs = s.wav.to(u.micron).value.copy()
+        sel = list(range(len(rows))) if subset is None else list(subset)
         try:
-            o = s.interpolate_variable(wavs, req.copy())
+            o = s.interpolate_variable(wavs[sel], req[sel].copy())
         except Exception as e:
             return ('refused', repr(e), None)
         o = np.asarray(getattr(o, 'value', o), dtype=float)
@@ -107,15 +110,18 @@ def replay_chunk(behs, seed):
                 for q in small[:2]:
                     calls.append(good[:3] + [q])
             for req2 in calls:
-                res = call(api, aps, rows, unit, req2, req_unit)
+                subset = None
+                if api == 'var' and nrows >= 2:
+                    subset = rng.sample(range(nrows), rng.randint(2, nrows))       # filters on some wavelengths only, listed in any order
+                res = call(api, aps, rows, unit, req2, req_unit, subset=subset)
                 col.replayed += 1
-                want_refuse = any(exp[q] == [] for q in req2)
+                want_refuse = any(exp[q] == [] for k_, q in enumerate(req2) if (subset is None or api != 'var' or k_ in subset))
                 desc = {'api': api, 'aps_AU': aps, 'table_unit': unit, 'request_unit': req_unit if api in ('conv', 'sedq') else 'bare AU',
                         'rows': rows, 'requests_AU': [q / 2.0 for q in req2]}
                 # BOUNDARY: a request exactly on the first/last tabulated radius that goes through a unit
                 # conversion may land 1 ulp outside the table; refusal is admitted there (and only there)
                 edgeconv = ((unit != req_unit) if api == 'conv' else (unit != 'au' or (api == 'sedq' and req_unit != 'au'))) and len(aps) > 1 and \
-                    any(q in (2 * aps[0], 2 * aps[-1]) for q in req2)
+                    any(q in (2 * aps[0], 2 * aps[-1]) for k_, q in enumerate(req2) if (subset is None or api != 'var' or k_ in subset))
                 if res[0] == 'refused' and not want_refuse and edgeconv:
                     col.extra['boundary_refusals_admitted'] = col.extra.get('boundary_refusals_admitted', 0) + 1
                     continue
@@ -137,7 +143,7 @@ def replay_chunk(behs, seed):
                     if bad:
                         break
                     for r in range(nrows):
-                        if api == 'var' and r != k:
+                        if api == 'var' and (r != k or (subset is not None and k not in subset)):
                             continue
                         w = float(frac(exp[q][r]))
                         got = out[k] if api == 'var' else out[r][k]
